@@ -30,6 +30,10 @@ pub enum Edit {
 pub struct Step {
     pub file: u16,
     pub edit: Edit,
+    /// the document is closed (didClose -> cleanup_file_cache) before this version is sent,
+    /// i.e. the version arrives through a fresh didOpen
+    #[serde(default)]
+    pub close_first: bool,
 }
 
 #[derive(Clone, Debug, Serialize, Deserialize)]
@@ -63,8 +67,8 @@ pub fn edit(cfg: &GenCfg) -> BoxedStrategy<Edit> {
 
 pub fn history(cfg: GenCfg, max_steps: usize) -> impl Strategy<Value = History> {
     let c2 = cfg.clone();
-    (workspace(cfg.clone()), vec((any::<u16>(), edit(&c2)), 1..=max_steps))
-        .prop_map(|(ws, steps)| History { ws, steps: steps.into_iter().map(|(file, edit)| Step { file, edit }).collect() })
+    (workspace(cfg.clone()), vec((any::<u16>(), edit(&c2), prop_oneof![5 => Just(false), 1 => Just(true)]), 1..=max_steps))
+        .prop_map(|(ws, steps)| History { ws, steps: steps.into_iter().map(|(file, edit, close_first)| Step { file, edit, close_first }).collect() })
 }
 
 /// The text a file has after each step, plus validity. Interpreter state.
@@ -87,6 +91,8 @@ pub struct Interp {
     pub time: usize,
     /// (file index, text, valid) in the order sent, including the initial opens
     pub sent: Vec<(usize, String, bool)>,
+    /// indices into `sent` that are preceded by a close of that document
+    pub closed_before: Vec<usize>,
 }
 
 pub fn render_items(cfg: &GenCfg, loc: &FileLoc, items: &[Item], shift: usize) -> (Vec<Item>, String) {
@@ -119,7 +125,7 @@ pub fn break_text(text: &str, kind: u8) -> String {
 
 impl Interp {
     pub fn new(cfg: &GenCfg, ws: &WorkspaceSpec) -> Interp {
-        let mut it = Interp { cfg: cfg.clone(), files: Vec::new(), time: 0, sent: Vec::new() };
+        let mut it = Interp { cfg: cfg.clone(), files: Vec::new(), time: 0, sent: Vec::new(), closed_before: Vec::new() };
         for f in &ws.files {
             let (items, text) = render_items(cfg, &f.loc, &f.items, 0);
             it.files.push(FileState {
@@ -204,6 +210,9 @@ impl Interp {
         if valid {
             st.last_valid_text = text.clone();
             st.last_valid_time = self.time;
+        }
+        if s.close_first {
+            self.closed_before.push(self.sent.len());
         }
         self.sent.push((fi, text, valid));
         fi
